@@ -70,3 +70,109 @@ def c02(tier: str) -> int:
         v.sample({'src_version': x.get('src_version'), 'lex': (x.get('src') or {}).get('lex'),
                   'sense_rows': (x.get('src') or {}).get('sense', [])[:3]})
     return v.finish()
+
+
+def c20(tier: str) -> int:
+    v = Verdict('C20', tier)
+    thorough = tier == 'thorough'
+    v.assumptions = [
+        'well-formedness in general is expat\'s business; the listed single-fault classes are generated',
+        'a base + extension document is added to an empty database, so the extension is skipped by design',
+        'flat(): scan results are compared with the lexicon rows of the full load (label "~" when empty)']
+    v.add_model('MC_Accepts (acceptance rules are total and consistent on the mutation alphabet)',
+                tlc_model('MC_Accepts'))
+    rng = random.Random(seed() + 20)
+    cases = []
+    for k in range(400 if thorough else 70):
+        ver = rng.choice(VERSIONS)
+        res = docs.random_resource(rng, ver, adversarial=rng.random() < 0.7,
+                                   extension=False if rng.random() < 0.7 else None)
+        cases.append({'id': k + 1, 'res': res, 'seed': rng.randrange(10 ** 9), 'per_kind': 3 if thorough else 2})
+    recs = run_cases('mutants', cases)
+    jd = tlc_judge('Judge_C20', recs, cfg='Judge.cfg', shards=NCPU)
+    v.add_judgement('Judge_C20', jd, {x['id']: x for x in recs},
+                    nontrivial=sum(1 for x in recs if x.get('m', {}).get('kind') not in (None, 'none')))
+    kinds = {}
+    for x in recs:
+        k = x.get('m', {}).get('kind', '?')
+        kinds[k] = kinds.get(k, 0) + 1
+    v.cov['mutations_by_kind'] = kinds
+    v.cov['rule'] = ('valid generated documents of every version (adversarial payloads in id / version / label) x '
+                     'single-fault mutations at sampled positions: required / optional attribute removed, element '
+                     'renamed, element of a later version inserted, single-valued / list child duplicated, end tag '
+                     'removed / mismatched, file cut inside a start tag / truncated, header line removed / altered / '
+                     'unsupported version / blank first line, quoting style and attribute order changed; '
+                     'non-trivial = every record but the unmutated ones')
+    for x in recs[3:6]:
+        v.sample({'v': x.get('v'), 'm': x.get('m'), 'load': x.get('load'), 'add': x.get('add'),
+                  'is_lmf': x.get('is_lmf'), 'scan': x.get('scan')})
+    return v.finish()
+
+
+def c01(tier: str) -> int:
+    v = Verdict('C01', tier)
+    thorough = tier == 'thorough'
+    v.assumptions = [
+        'strings are atoms for TLC: character fidelity rests on adversarial payloads compared by exact equality',
+        'example language / metadata and definitions beyond the first are not exposed by the public API '
+        '(they are covered through export in C03 and the table dump in C05)',
+        'content that extensions contribute to base entities is checked on relational worlds in C04 / C10 / C11']
+    v.add_model('MC_Lmf (the document model)', tlc_model('MC_Lmf'))
+    rng = random.Random(seed() + 1)
+    cases = []
+    n = 1500 if thorough else 170
+    for k in range(n):
+        ver = rng.choice(VERSIONS)
+        res = docs.random_resource(rng, ver, adversarial=rng.random() < 0.8,
+                                   size=rng.choice([3, 3, 5]))
+        c = {'id': k + 1, 'res': res}
+        if rng.random() < 0.5:
+            c['batch'] = rng.choice([1, 2, 3])
+        if rng.random() < 0.3:
+            c['writer'] = {'quote': "'"}
+        cases.append(c)
+    recs = run_cases('content', cases)
+    jd = tlc_judge('Judge_C01', recs, cfg='Judge.cfg', shards=NCPU)
+    v.add_judgement('Judge_C01', jd, {x['id']: x for x in recs}, nontrivial=len(recs))
+    v.cov['rule'] = ('random valid resources of every LMF version (1-2 lexicons + optional extension, every optional '
+                     'attribute / child present or absent, metadata everywhere, adversarial Unicode / XML-special '
+                     'payloads in attribute values and text), added with BATCH_SIZE in {1, 2, 3, 1000}; every '
+                     'non-extension lexicon is walked through the public API; every lexicon is non-trivial')
+    for x in recs[:1]:
+        v.sample({'spec': x.get('spec'), 'words': (x.get('api') or {}).get('aword'),
+                  'forms': (x.get('api') or {}).get('aform', [])[:4]})
+    return v.finish()
+
+
+def c03(tier: str) -> int:
+    v = Verdict('C03', tier)
+    thorough = tier == 'thorough'
+    v.assumptions = [
+        'the order of relations of a sense / synset in the export is not compared; frame-sense links are compared as '
+        'links, whatever syntax (entry-level frames, lexicon-level frames with subcat) carries them',
+        'ILIDefinition is generated for proposed ILIs only (a definition on an existing ILI is W304 "spurious")',
+        'observational identity after re-import = equal digests of everything the public API reports '
+        '(harness/apiobs.py), claimed when the export version can express the lexicon']
+    v.add_model('MC_Lmf (Project)', tlc_model('MC_Lmf'))
+    rng = random.Random(seed() + 3)
+    cases = []
+    for k in range(900 if thorough else 110):
+        ver = rng.choice(VERSIONS)
+        res = docs.random_resource(rng, ver, adversarial=rng.random() < 0.8, extension=False,
+                                   nlex=rng.choice([1, 1, 2]))
+        for L in res['lexicons']:
+            for y in L['synsets']:
+                if y['ili'] != 'in':
+                    y.pop('ili_definition', None)
+        cases.append({'id': k + 1, 'res': res, 'versions': VERSIONS})
+    recs = run_cases('export', cases)
+    jd = tlc_judge('Judge_C03', recs, cfg='Judge.cfg', shards=NCPU)
+    v.add_judgement('Judge_C03', jd, {x['id']: x for x in recs}, nontrivial=len(cases))
+    v.cov['exports'] = sum(len(x.get('exports', [])) for x in recs)
+    v.cov['rule'] = ('random valid non-extension resources (1-2 lexicons per export, every source version, every optional '
+                     'feature, adversarial payloads) x 4 export versions; each export is loaded and re-added to an empty '
+                     'database; every resource is non-trivial')
+    for x in recs[:1]:
+        v.sample({'src_version': x.get('src_version'), 'lex': (x.get('src') or {}).get('lex'),
+                  'exports': [[t['v'], t['st'], t['readd']] for t in x.get('exports', [])]})
+    return v.finish()
